@@ -77,7 +77,7 @@ func scenarios() []scenario {
 			{c(s5Source, 2)},
 		}},
 		{Name: "S7-long-pipelines-first-use", Threads: [][]call{
-			{c("T | project a, b | project b, a | summarize n = count() by a | project n | extend m = n + 1 | project m | count", -1)},
+			{c("T | project a, b | project b, a | summarize n = count() by a | project n | extend m = n + 1 | project m | project l = m | project k = l | project j = k | project i = j | where i | project h = i | count", -1)},
 			{c("T | where a | project a | project b = a | project c = b | project d = c | project e = d | as Q | join (R | project k | project j = k | project i = j) on i", -1)},
 		}},
 		{Name: "S8-lets-with-empty-parameter-map", Threads: [][]call{
@@ -515,6 +515,15 @@ func histories(w *run.Worker, r *run.Runner, tier string) {
 		// a let with an empty (non-nil) parameter map: the binding must not reach the caller's map
 		{"let n = 10; T | take n", 2},
 		{"T | where n > 3 | project n", 2},
+		// a call that fails half way through writing an expression, then calls that write similar expressions
+		{"T | where a > -(a + not(b, c)) | take 3", -1},
+		{"T | extend x = -a, y = -(b), z = strcat(a, -c) | top 5 by -x", -1},
+		// sources that differ only in line ends / blanks / comments but copy source text into the output
+		{"T | extend a +\n  b | summarize max(a\n+ b) by c", -1},
+		{"T | extend a +\r\n  b | summarize max(a\r\n+ b) by c", -1},
+		{"T | extend a +  b | summarize max(a + b) by c // x", -1},
+		{"T | where a == 'unterminated\n", -1},
+		{"T | where a == 'unterminated\r\n", -1},
 	}
 	// nil, zero value and empty map are equivalent on every kind of source
 	for _, src := range []string{"let n = 10; T | take n", "let n = 1; let m = n + 1; T | where a == m | take n", "T | where p == 1", "let p = 2; T | where not(p, 1)", "T | join kind=x (R) on k"} {
